@@ -61,8 +61,14 @@ def main():
     sh("git -C %s checkout -- ." % WT)
     confirmed = res.get("builds_and_126_pass") and res.get("demo_clean_rc") == 0 and res.get("demo_mutated_rc", 0) != 0
     res["confirmed"] = bool(confirmed)
-    # the checks
+    # the checks (the evidence files of the clean tree are put back afterwards: evidence is only ever committed from clean runs)
     res["checks"] = {}
+    import tempfile
+    evbak = tempfile.mkdtemp(prefix="evbak_")
+    for pid in pids:
+        ef = "/verif/evidence/%s.json" % pid
+        if os.path.exists(ef):
+            shutil.copy(ef, evbak)
     if sh("git -C %s status --porcelain --untracked-files=no" % REPO).stdout.strip():
         print("REPO is dirty; refusing"); sys.exit(2)
     try:
@@ -91,6 +97,10 @@ def main():
                 res["checks"][pid] = {"rc": c.returncode, "violations": kinds, "what": what[:3], "wall": round(time.time() - t, 1)}
     finally:
         sh("git -C %s checkout -- ." % REPO)
+        for f in os.listdir(evbak):
+            shutil.copy(os.path.join(evbak, f), "/verif/evidence/" + f)
+        shutil.rmtree(evbak, ignore_errors=True)
+        sh("cd /verif && python3 tools/translate.py > /dev/null")
     out = os.path.join("/verif/seeded", name)
     if confirmed:
         os.makedirs(out, exist_ok=True)
